@@ -499,7 +499,9 @@ theorem loop_MS {acc : Bytes → Nat} (ha : AccOk acc) (f : FileData) (sch : Nat
       (Fits s f buf ∨ buf = [] → ∃ sd', (GW.writeAllLoop acc fuel buf s : MS _) sch sd = (.ok (.ok (), fin s buf), sd') ∧
         (sd'.buf, sd'.pos) = devEff s.inner sd buf) ∧
       (¬ Fits s f buf → buf ≠ [] → ∃ s' sd',
-        (GW.writeAllLoop acc fuel buf s : MS _) sch sd = (.ok (.error (.io .other), s'), sd') ∧ s'.inner = .closed) := by
+        (GW.writeAllLoop acc fuel buf s : MS _) sch sd = (.ok (.error (.io .other), s'), sd') ∧ s'.inner = .closed ∧
+          s'.writingToFile = s.writingToFile ∧ s'.writingToExtraField = s.writingToExtraField ∧
+          s'.comment = s.comment) := by
   intro fuel
   induction fuel with
   | zero => intro buf s sd h; omega
@@ -546,7 +548,7 @@ theorem loop_MS {acc : Bytes → Nat} (ha : AccOk acc) (f : FileData) (sch : Nat
           · exact ih2 h hr
       · rw [if_neg hfit] at hstep
         rw [MS.bind_of_ok hstep] at hunf
-        refine ⟨fun h => ?_, fun _ _ => ⟨_, sd1, hunf, rfl⟩⟩
+        refine ⟨fun h => ?_, fun _ _ => ⟨_, sd1, hunf, rfl, rfl, rfl, rfl⟩⟩
         rcases h with h | h
         · rw [← hsplit] at h
           exact absurd (fits_prefix h) hfit
@@ -619,7 +621,9 @@ end GW
 writer closed.  (How many bytes reached the sink before the refusal depends on the schedule:
 `refusal_bytes_depend_on_schedule`.) -/
 def Refusal {β} (r r' : Except ZErr β × WState) : Prop :=
-  r.1 = .error (.io .other) ∧ r'.1 = .error (.io .other) ∧ r.2.inner = .closed ∧ r'.2.inner = .closed
+  r.1 = .error (.io .other) ∧ r'.1 = .error (.io .other) ∧ r.2.inner = .closed ∧ r'.2.inner = .closed ∧
+    r'.2.writingToFile = r.2.writingToFile ∧ r'.2.writingToExtraField = r.2.writingToExtraField ∧
+    r'.2.comment = r.2.comment
 
 /-- `x` over the `Cursor`, `y` over the short-writing device with ANY schedule, from the same bytes at
 the same position: same outcome on the same bytes at the same position; or both calls were refused for
@@ -690,11 +694,11 @@ theorem tail {x : M (Except ZErr α × WState)} {y : MS (Except ZErr α × WStat
   · rw [M.bind_of_ok e1, MS.bind_of_ok e2]
     rcases r with ⟨r, s⟩
     rcases r' with ⟨r', s'⟩
-    obtain ⟨h1, h2, h3, h4⟩ := hR
-    simp only at h1 h2 h3 h4
+    obtain ⟨h1, h2, h3, h4, h5⟩ := hR
+    simp only at h1 h2 h3 h4 h5
     subst h1 h2
     rw [hf, hg]
-    exact Or.inr (Or.inl ⟨_, _, d1, sd1, rfl, rfl, rfl, rfl, h3, h4⟩)
+    exact Or.inr (Or.inl ⟨_, _, d1, sd1, rfl, rfl, rfl, rfl, h3, h4, h5⟩)
   · refine Or.inr (Or.inr ⟨site, d1, sd1, ?_, ?_⟩)
     · rw [M.bind_apply, e1]
     · rw [hyb _ _ e2]
@@ -821,8 +825,8 @@ theorem simS_writeData {acc : Bytes → Nat} (ha : AccOk acc) (buf : Bytes) (s :
           rw [← hd', ← hsd'] at this
           simp only [Prod.mk.injEq] at this
           exact ⟨this.1.symm, this.2.symm⟩
-        · obtain ⟨s', sd', e, hcl'⟩ := h2 hfit (by simp)
-          exact Or.inr (Or.inl ⟨_, _, d', sd', by rw [hM, if_neg hfit], e, rfl, rfl, rfl, hcl'⟩)
+        · obtain ⟨s', sd', e, hcl', hf1, hf2, hf3⟩ := h2 hfit (by simp)
+          exact Or.inr (Or.inl ⟨_, _, d', sd', by rw [hM, if_neg hfit], e, rfl, rfl, rfl, hcl', hf1, hf2, hf3⟩)
 
 
 theorem simS_writeData' {acc : Bytes → Nat} (ha : AccOk acc) (buf : Bytes) (s : WState) :
@@ -1033,6 +1037,226 @@ theorem refusedAt_mem {acc : Bytes → Nat} {ext : WExt} {sch : Nat → Nat} :
       | ok v => simp only [runCalls, e1]; exact List.mem_cons_of_mem _ (ih _ _ _ h)
       | error e => simp only [runCalls, e1]; exact List.mem_cons_of_mem _ (ih _ _ _ h)
     · simp only [runCalls, e1]; exact List.mem_cons_of_mem _ (ih _ _ _ h)
+
+end GW
+/-! ### After a refusal: a closed writer answers without I/O, the same under every schedule -/
+
+theorem MS.ext {α} {x y : MS α} (h : ∀ sch d, x sch d = y sch d) : x = y := by
+  funext sch d; exact h sch d
+
+instance : LawfulMonad MS := LawfulMonad.mk'
+  (id_map := by
+    intro α x
+    apply MS.ext; intro sch d
+    show (x >>= fun a => pure (id a)) sch d = x sch d
+    rw [MS.bind_apply]
+    rcases h : x sch d with ⟨o, d'⟩
+    cases o <;> rfl)
+  (pure_bind := by intros; rfl)
+  (bind_assoc := by
+    intro α β γ x f g
+    apply MS.ext; intro sch d
+    simp only [MS.bind_apply]
+    rcases h : x sch d with ⟨o, d'⟩
+    cases o <;> simp only [])
+
+instance instLawfulM : LawfulMonad M := LawfulMonad.mk'
+  (id_map := by
+    intro α x
+    funext fa d
+    show (x >>= fun a => pure (id a)) fa d = x fa d
+    rw [M.bind_apply]
+    rcases h : x fa d with ⟨o, d'⟩
+    cases o <;> rfl)
+  (pure_bind := by intros; rfl)
+  (bind_assoc := by
+    intro α β γ x f g
+    funext fa d
+    simp only [M.bind_apply]
+    rcases h : x fa d with ⟨o, d'⟩
+    cases o <;> simp only [])
+
+namespace GW
+variable {m : Type → Type} [WriterIO m] [LawfulMonad m]
+set_option linter.unusedSectionVars false
+
+theorem switchTo_closed (ext : WExt) (c : Method) (l : Option Int) {s : WState} (h : s.inner = .closed) :
+    (GW.switchTo ext c l s : m _) = pure (.error (.io .brokenPipe), s) := by
+  simp only [GW.switchTo, h, Inner.currentCompression]
+
+theorem endExtraData_closed (ext : WExt) {s : WState} (h : s.inner = .closed) :
+    (GW.endExtraData ext s : m _) =
+      pure (.error (.io (if s.writingToExtraField then .brokenPipe else .other)), s) := by
+  cases hx : s.writingToExtraField <;>
+    simp only [GW.endExtraData, hx, h, Inner.isClosed, Bool.not_false, Bool.not_true, ↓reduceIte, Bool.false_eq_true]
+
+theorem finishFile_closed (ext : WExt) {s : WState} (h : s.inner = .closed) :
+    (GW.finishFile ext s : m _) = pure (.error (.io .brokenPipe), s) := by
+  cases hx : s.writingToExtraField
+  · simp only [GW.finishFile, hx, Bool.false_eq_true, ↓reduceIte, pure_bind, switchTo_closed ext _ _ h]
+  · simp only [GW.finishFile, hx, ↓reduceIte, endExtraData_closed ext h, pure_bind, Except.map]
+
+
+theorem startEntry_closed (ext : WExt) (name : Bytes) (o : FileOptions) (raw) {s : WState} (h : s.inner = .closed) :
+    (GW.startEntry ext name o raw s : m _) =
+      pure (.error (if name.length > 65535 then .invalidArchive else .io .brokenPipe), s) := by
+  by_cases hn : name.length > 65535
+  · simp only [GW.startEntry, hn, ↓reduceIte]
+  · simp only [GW.startEntry, hn, ↓reduceIte, finishFile_closed ext h, pure_bind]
+
+theorem finalize_closed (ext : WExt) {s : WState} (h : s.inner = .closed) :
+    (GW.finalize ext s : m _) =
+      pure (.error (if s.comment.length > 65535 then .invalidArchive else .io .brokenPipe), s) := by
+  by_cases hn : s.comment.length > 65535
+  · simp only [GW.finalize, hn, ↓reduceIte]
+  · simp only [GW.finalize, hn, ↓reduceIte, finishFile_closed ext h, pure_bind]
+
+theorem writeData_closed (acc : Bytes → Nat) (buf : Bytes) {s : WState} (h : s.inner = .closed) :
+    (GW.writeData acc buf s : m _) =
+      pure (if buf.isEmpty then .ok () else if s.writingToFile then .error (.io .brokenPipe) else .error (.io .other), s) := by
+  cases buf with
+  | nil => simp only [GW.writeData, GW.writeAllLoop, List.isEmpty_nil, ↓reduceIte]
+  | cons b bs =>
+    cases hwf : s.writingToFile <;>
+      simp only [GW.writeData, GW.writeAllLoop, List.isEmpty_cons, Bool.false_eq_true, ↓reduceIte, GW.write, hwf, h,
+        Bool.not_false, Bool.not_true, pure_bind]
+
+/-- the name `add_directory` gives the entry -/
+def dirName (name : Bytes) : Bytes :=
+  match name.getLast? with
+  | some 0x2f => name
+  | some 0x5c => name
+  | _ => name ++ [0x2f]
+
+/-- What a CLOSED writer answers: no I/O, the state unchanged (but for `set_comment`), the outcome a function of
+the call, of the two mode flags and of the comment's length. -/
+def closedStep : Call → WState → Except ZErr (Option Nat) × WState
+  | .startFile n _, s => (.error (if n.length > 65535 then .invalidArchive else .io .brokenPipe), s)
+  | .startFileWithExtraData n _, s => (.error (if n.length > 65535 then .invalidArchive else .io .brokenPipe), s)
+  | .startFileAligned n _ _, s => (.error (if n.length > 65535 then .invalidArchive else .io .brokenPipe), s)
+  | .write b, s =>
+    (if b.isEmpty then .ok none else if s.writingToFile then .error (.io .brokenPipe) else .error (.io .other), s)
+  | .endLocalStartCentral, s => (.error (.io (if s.writingToExtraField then .brokenPipe else .other)), s)
+  | .endExtraData, s => (.error (.io (if s.writingToExtraField then .brokenPipe else .other)), s)
+  | .addDirectory n _, s => (.error (if (dirName n).length > 65535 then .invalidArchive else .io .brokenPipe), s)
+  | .addSymlink n _ _, s => (.error (if n.length > 65535 then .invalidArchive else .io .brokenPipe), s)
+  | .setComment c, s => (.ok none, { s with comment := c })
+  | .rawCopy _ _ n, s => (.error (if n.length > 65535 then .invalidArchive else .io .brokenPipe), s)
+  | .finish, s => (.error (if s.comment.length > 65535 then .invalidArchive else .io .brokenPipe), s)
+  | .drop, s => (.ok none, s)
+
+theorem step_closed (acc : Bytes → Nat) (ext : WExt) (c : Call) {s : WState} (h : s.inner = .closed) :
+    (GW.step acc ext c s : m _) = pure (closedStep c s) := by
+  cases c with
+  | startFile n o =>
+    simp only [GW.step, mapStepG, GW.startFile, startEntry_closed ext _ _ _ h, pure_bind, closedStep, Except.map, withFilePerm]
+  | startFileWithExtraData n o =>
+    simp only [GW.step, mapStepG, GW.startFileWithExtraData, startEntry_closed ext _ _ _ h, pure_bind, closedStep, Except.map]
+  | startFileAligned n o a =>
+    simp only [GW.step, mapStepG, GW.startFileAligned, GW.startFileWithExtraData, startEntry_closed ext _ _ _ h, pure_bind,
+      closedStep, Except.map]
+  | write b =>
+    simp only [GW.step, mapStepG, writeData_closed acc b h, pure_bind, closedStep]
+    cases b with
+    | nil => rfl
+    | cons x xs => cases s.writingToFile <;> rfl
+  | endLocalStartCentral =>
+    simp only [GW.step, mapStepG, GW.endLocalStartCentral, endExtraData_closed ext h, pure_bind, closedStep, Except.map]
+  | endExtraData =>
+    simp only [GW.step, mapStepG, endExtraData_closed ext h, pure_bind, closedStep, Except.map]
+  | addDirectory n o =>
+    simp only [GW.step, mapStepG, GW.addDirectory, startEntry_closed ext _ _ _ h, pure_bind, closedStep, Except.map, dirName]
+    rfl
+  | addSymlink n t o =>
+    simp only [GW.step, mapStepG, GW.addSymlink, startEntry_closed ext _ _ _ h, pure_bind, closedStep, Except.map]
+  | setComment c => rfl
+  | rawCopy src raw n =>
+    simp only [GW.step, mapStepG, GW.rawCopy, startEntry_closed ext _ _ _ h, pure_bind, closedStep, Except.map]
+  | finish =>
+    simp only [GW.step, mapStepG, GW.finish, finalize_closed ext h, pure_bind, closedStep, Except.map]
+  | drop =>
+    simp only [GW.step, mapStepG, GW.dropWriter, h, Inner.isClosed, ↓reduceIte, pure_bind, closedStep, Except.map]
+
+end GW
+
+namespace GW
+
+/-- Two closed writers that agree on the two mode flags and the comment. -/
+def ClosedRel (s s' : WState) : Prop :=
+  s.inner = .closed ∧ s'.inner = .closed ∧ s'.writingToFile = s.writingToFile ∧
+    s'.writingToExtraField = s.writingToExtraField ∧ s'.comment = s.comment
+
+theorem closedStep_rel (c : Call) {s s' : WState} (h : ClosedRel s s') :
+    (closedStep c s).1 = (closedStep c s').1 ∧ ClosedRel (closedStep c s).2 (closedStep c s').2 := by
+  obtain ⟨h1, h2, h3, h4, h5⟩ := h
+  cases c with
+  | setComment c => exact ⟨rfl, h1, h2, h3, h4, rfl⟩
+  | startFile _ _ => exact ⟨rfl, h1, h2, h3, h4, h5⟩
+  | startFileWithExtraData _ _ => exact ⟨rfl, h1, h2, h3, h4, h5⟩
+  | startFileAligned _ _ _ => exact ⟨rfl, h1, h2, h3, h4, h5⟩
+  | write b => exact ⟨by simp only [closedStep, h3], h1, h2, h3, h4, h5⟩
+  | endLocalStartCentral => exact ⟨by simp only [closedStep, h4], h1, h2, h3, h4, h5⟩
+  | endExtraData => exact ⟨by simp only [closedStep, h4], h1, h2, h3, h4, h5⟩
+  | addDirectory _ _ => exact ⟨rfl, h1, h2, h3, h4, h5⟩
+  | addSymlink _ _ _ => exact ⟨rfl, h1, h2, h3, h4, h5⟩
+  | rawCopy _ _ _ => exact ⟨rfl, h1, h2, h3, h4, h5⟩
+  | finish => exact ⟨by simp only [closedStep, h5], h1, h2, h3, h4, h5⟩
+  | drop => exact ⟨rfl, h1, h2, h3, h4, h5⟩
+
+/-- From related closed writers both runs give the same outcomes (and do no I/O). -/
+theorem run_closed (acc : Bytes → Nat) (ext : WExt) (sch : Nat → Nat) :
+    ∀ (calls : List Call) (s s' : WState) (d sd : Dev), ClosedRel s s' →
+      (runCalls ext calls s none d).1 = (runCallsS acc ext calls s' sch sd).1 := by
+  intro calls
+  induction calls with
+  | nil => intros; rfl
+  | cons c cs ih =>
+    intro s s' d sd h
+    obtain ⟨ho, hrel⟩ := closedStep_rel c h
+    have e1 : Props.C12.step ext c s none d = (.ok (closedStep c s), d) := by
+      rw [← step_M, step_closed (m := M) _ ext c h.1]; rfl
+    have e2 : (GW.step acc ext c s' : MS _) sch sd = (.ok (closedStep c s'), sd) := by
+      rw [step_closed (m := MS) acc ext c h.2.1]; rfl
+    rcases hc : closedStep c s with ⟨r, t⟩
+    rcases hc' : closedStep c s' with ⟨r', t'⟩
+    rw [hc, hc'] at ho hrel
+    rw [hc] at e1
+    rw [hc'] at e2
+    simp only at ho
+    subst ho
+    cases r with
+    | ok v => simp only [runCalls, runCallsS, e1, e2, ih t t' d sd hrel]
+    | error e => simp only [runCalls, runCallsS, e1, e2, ih t t' d sd hrel]
+
+/-- After the refusal the outcomes stay the same. -/
+theorem refusedAt_outs {acc : Bytes → Nat} {ext : WExt} {sch : Nat → Nat} :
+    ∀ (calls : List Call) (s : WState) (d sd : Dev), RefusedAt acc ext sch calls s d sd →
+      (runCalls ext calls s none d).1 = (runCallsS acc ext calls s sch sd).1 := by
+  intro calls
+  induction calls with
+  | nil => intro s d sd h; exact h.elim
+  | cons c cs ih =>
+    intro s d sd h
+    rcases h with ⟨r, r', d', sd', e1, e2, hR⟩ | ⟨v, s', d', sd', e1, e2, _, h⟩ | ⟨e, d', sd', e1, e2, _, h⟩
+    · rcases r with ⟨r, t⟩
+      rcases r' with ⟨r', t'⟩
+      obtain ⟨h1, h2, h3, h4, h5⟩ := hR
+      simp only at h1 h2 h3 h4 h5
+      subst h1 h2
+      simp only [runCalls, runCallsS, e1, e2, run_closed acc ext sch cs t t' d' sd' ⟨h3, h4, h5⟩]
+    · cases v with
+      | ok v => simp only [runCalls, runCallsS, e1, e2, ih _ _ _ h]
+      | error e => simp only [runCalls, runCallsS, e1, e2, ih _ _ _ h]
+    · simp only [runCalls, runCallsS, e1, e2, ih _ _ _ h]
+
+/-- **The per-call outcomes never depend on the schedule.** -/
+theorem run_outcomes {acc : Bytes → Nat} (ha : AccOk acc) (ext : WExt) (sch : Nat → Nat) (calls : List Call)
+    (s : WState) (d sd : Dev) (hv : SameView d sd) :
+    (runCalls ext calls s none d).1 = (runCallsS acc ext calls s sch sd).1 := by
+  rcases run_sim ha ext sch calls s d sd hv with ⟨h, _⟩ | h | ⟨h, _⟩
+  · exact h
+  · exact refusedAt_outs calls s d sd h
+  · exact h
 
 end GW
 end ZipVerif.Model
